@@ -1,8 +1,8 @@
 #!/bin/sh
-# tools_sweep_all.sh <tier> <seed...>: runs every registered check at the given seeds and prints one line per run.
+# tools_sweep_all.sh <tier> <seed...>: runs every registered check (or those in $PROPS) at the given seeds and prints one line per run.
 tier=$1; shift
 for s in "$@"; do
-  for p in C01 C02 C03 C04 C05 C06 C07 C08 C09 C10 C11 C12 C13 C14 C15 C16 C17 C18 C19 C20; do
+  for p in ${PROPS:-C01 C02 C03 C04 C05 C06 C07 C08 C09 C10 C11 C12 C13 C14 C15 C16 C17 C18 C19 C20}; do
     t0=$(date +%s)
     out=$(VERIF_SEED=$s ./vcheck $p --tier $tier --no-evidence 2>&1); rc=$?
     t1=$(date +%s)
